@@ -299,9 +299,12 @@ pub fn engine_roundtrip(cases: Vec<Value>, out: &mut NdjsonOut) {
                 Err(err) => res.push(json!({"i": i, "parsed": false, "error": err.to_string()})),
             }
         }
-        let replayed: Vec<Value> = log.replay().map(|evs| evs.iter().map(|e| serde_json::to_value(e).unwrap_or(Value::Null)).collect()).unwrap_or_default();
+        let (replayed, replay_error): (Vec<Value>, Value) = match log.replay() {
+            Ok(evs) => (evs.iter().map(|e| serde_json::to_value(e).unwrap_or(Value::Null)).collect(), Value::Null),
+            Err(err) => (Vec::new(), json!(err.to_string())),
+        };
         let raw_lines = std::fs::read_to_string(&path).map(|s| s.lines().count()).unwrap_or(0);
-        out.write(&json!({"id": case["id"], "results": res, "appended": appended, "replayed": replayed, "raw_lines": raw_lines}));
+        out.write(&json!({"id": case["id"], "results": res, "appended": appended, "replayed": replayed, "replay_error": replay_error, "raw_lines": raw_lines}));
         let _ = std::fs::remove_file(&path);
     }
     let _ = std::fs::remove_dir_all(&root);
